@@ -34,7 +34,7 @@ pub struct Config {
     /// R-mirror: every assignment `X = E` to one of these variables is followed by a ghost copy of the new
     /// value into the named ghost out-parameter: `{ X = E; proof { *G.borrow_mut() = X; } }`
     pub mirror: Vec<(String, String)>,
-    /// R-alloc: `Vec::with_capacity(E)` -> `vx_with_capacity(E)` (prelude: `requires` the request to be covered
+    /// R-alloc: `Vec::with_capacity(E)` -> `vx_with_capacity(E)`, `VecDeque::with_capacity(E)` -> `vx_deque_with_capacity(E)` (prelude: `requires` the request to be covered
     /// by the caller's pre-flight allocation check): the capacity request becomes a proof obligation
     pub ralloc: bool,
     pub state_methods: Vec<String>,
@@ -866,9 +866,10 @@ impl<'a, 'ast> Visit<'ast> for Rewriter<'a> {
     fn visit_expr_call(&mut self, c: &'ast ExprCall) {
         if self.cfg.ralloc {
             let f = norm(&self.sf.slice(self.r(c.func.span())).to_string());
-            if f == "Vec::with_capacity" {
+            if f == "Vec::with_capacity" || f == "VecDeque::with_capacity" {
                 let fr = self.r(c.func.span());
-                self.edits.replace(fr, vec![Piece::Lit("vx_with_capacity".into())], "R-alloc");
+                let target = if f.starts_with("VecDeque") { "vx_deque_with_capacity" } else { "vx_with_capacity" };
+                self.edits.replace(fr, vec![Piece::Lit(target.into())], "R-alloc");
                 self.note("R-alloc", c.span());
             }
         }
